@@ -323,7 +323,8 @@ fn hostile_for_subject(ctx: &mut Ctx, acc: &mut Acc, id: &str, plan: &Plan, c05:
 /// allocation of exactly its length, so that the sanitizer of the lane sees any read behind it.  Only totality (C05)
 /// and memory safety (the lane's sanitizer, C19) are judged: what a lenient reader makes of damaged data is its own
 /// business.
-pub fn tolerant_workload(ctx: &mut Ctx, acc: &mut Acc, judge: bool) {
+pub fn tolerant_workload(ctx: &mut Ctx, acc: &mut Acc, judge: bool, content: bool) {
+    let check_name = ctx.check.clone();
     let n_pairs = ctx.reg.tolerant.len();
     for pi in 0..n_pairs {
         if pi % ctx.shards != ctx.shard {
@@ -378,6 +379,15 @@ pub fn tolerant_workload(ctx: &mut Ctx, acc: &mut Acc, judge: bool) {
                 let j = judge_total(acc, r, class, &exact, judge);
                 if matches!(j.real, Call::StepBudget(_)) {
                     budget_hits += 1;
+                }
+                if content {
+                    // what lies in other chunk windows than the lenient field is the format's business whatever the client
+                    // codec did: an accepted input must give exactly those values (the lenient position itself is never compared)
+                    let before = acc.counters.get("accepted_and_agreed").copied().unwrap_or(0);
+                    judge_content(acc, &check_name, r, &r.ty(), class, &exact, &j.real);
+                    if acc.counters.get("accepted_and_agreed").copied().unwrap_or(0) > before {
+                        acc.count("tolerant:other_chunks_as_the_format_assigns");
+                    }
                 }
                 match &j.real {
                     Call::Ok(v) if v.render(1 << 16).contains("<lenient:failed>") => acc.count("tolerant:nested_failure_survived"),
@@ -477,7 +487,7 @@ pub fn c05(ctx: &mut Ctx, acc: &mut Acc) -> i32 {
     }
     if !core_only {
         crate::inputs::hostile_ops(ctx, acc, "C05");
-        tolerant_workload(ctx, acc, true);
+        tolerant_workload(ctx, acc, true, false);
     }
     0
 }
@@ -499,6 +509,8 @@ pub fn c06(ctx: &mut Ctx, acc: &mut Acc) -> i32 {
         hostile_for_subject(ctx, acc, &id, &plan, false, true);
         acc.count("types");
     }
+    // lenient readers: the fields in other chunks than the lenient one must still be what the format assigns
+    tolerant_workload(ctx, acc, false, true);
     let _ = TAMPER_CLASSES;
     0
 }
@@ -536,7 +548,7 @@ pub fn c19(ctx: &mut Ctx, acc: &mut Acc) -> i32 {
         acc.count("types_with_unsafe_decode_paths");
     }
     // the library regaining control after a nested failure, under the sanitizer of the lane
-    tolerant_workload(ctx, acc, false);
+    tolerant_workload(ctx, acc, false, true);
     0
 }
 
